@@ -57,6 +57,12 @@ def bare(name):
     return name[1:-1] if len(name) >= 2 and name[0] == "`" and name[-1] == "`" else name
 
 
+def here(c):
+    """Description of the token under the cursor for error messages."""
+    t = c.peek()
+    return "end of file" if t[0] == "eof" else f"`{t[1]}`, line {t[2]}"
+
+
 def dotted(c):
     """id (. id)*  -> list of segments (back-ticks removed)."""
     segs = [bare(c.expect_id())]
@@ -67,9 +73,8 @@ def dotted(c):
 
 
 def parse_type(c):
-    t = c.peek()
-    if t[0] != "id":
-        raise ExtractError(f"unexpected `{t[1]}` where a type should be, line {t[2]}")
+    if c.kind() != "id":
+        raise ExtractError(f"expected a type but found {here(c)}")
     name = ".".join(dotted(c))
     args = []
     if c.at("["):
@@ -108,7 +113,7 @@ def parse_param(c, what):
     if k[0] != "id":
         raise ExtractError(f"unexpected `{k[1]}` where a {what} name should be, line {k[2]}")
     if not c.at(":"):
-        raise ExtractError(f"{what} `{k[1]}` is not followed by `:` (found `{c.text()}`), line {c.peek()[2]}")
+        raise ExtractError(f"{what} `{k[1]}` (line {k[2]}) is not followed by `:` but by {here(c)}")
     c.next()
     ty = parse_type(c)
     default = None
@@ -144,8 +149,8 @@ def parse_params(c, what):
         ms.append(parse_param(c, "field"))
         if not c.eat(","):
             if not c.at(")"):
-                raise ExtractError(f"expected `,` or `)` after field `{ms[-1]['ident']}` but found `{c.text()}`, "
-                                   f"line {c.peek()[2]}")
+                raise ExtractError(f"expected `,` or `)` after field `{ms[-1]['ident']}` "
+                                   f"(line {ms[-1]['line']}) of {what} but found {here(c)}")
     c.expect(")")
     return ms
 
@@ -176,8 +181,8 @@ def parse_enum(c, line, scope, struct_names):
     c.expect("String")
     c.expect("}")
     if not c.at("object"):
-        raise ExtractError(f"sealed trait `{name}` is not followed by its companion object "
-                           f"(found `{c.text()}`), line {c.peek()[2]}")
+        raise ExtractError(f"sealed trait `{name}` (line {line}) is not followed by its companion object "
+                           f"but by {here(c)}")
     c.next()
     oname = bare(c.expect_id())
     if oname != name:
@@ -202,8 +207,8 @@ def parse_enum(c, line, scope, struct_names):
                 raise ExtractError(f"case class `{ident}` of `{name}` has no parameter, line {t[2]}")
             p = parse_param(c, "parameter")
             if not c.at(")"):
-                raise ExtractError(f"case class `{ident}` of `{name}` has more than one parameter or a malformed "
-                                   f"one (found `{c.text()}`), line {c.peek()[2]}")
+                raise ExtractError(f"case class `{ident}` of `{name}` (line {t[2]}) has more than one parameter "
+                                   f"or a malformed one: found {here(c)}")
             c.next()
             contents.append(p["key"])
             ty = p["ty"]
